@@ -1150,13 +1150,16 @@ def execute(ctx: Ctx, world: World, judge: Judge, plan: dict, k: int) -> None:
 
 def run(ctx: Ctx) -> None:
     ctx.rule = ("executions = combinations of the model's input dimensions (response family: method x version x request "
-                "Connection x status x response kind x compression x force_close x handler Connection header; request family: "
-                "method x version x body kind x chunked x compress x Expect) executed end to end (real ClientSession -> "
+                "Connection x status x response kind x compression x force_close x handler Connection header x "
+                "on_response_prepare ok/raises, header container list/dict/shared sampled; request family: "
+                "method x version x body kind (incl. slow streamed) x chunked x compress x Expect x handler reads/answers early "
+                "x expect handling (100 / 417 / 403 / silent) x caller cancelled (before head / mid body) x connection "
+                "history (fresh / reused / stale+retry)) executed end to end (real ClientSession -> "
                 "segmenting relay -> real RequestHandler/web.Application), once unsegmented and in content-dependent "
                 "segmentations of both directions; distinct = different (family, model input) combinations")
     ctx.assumptions = [
         "in-memory transports honouring the asyncio.Transport contract replace sockets (no TLS, proxies, kernel buffering)",
-        "one exchange per connection followed by one probe request; quiescence = ready queue empty after firing timers "
+        "one exchange (optionally after a warm-up request on the same connection) followed by one probe request; quiescence = ready queue empty after firing timers "
         "due within 30 virtual seconds (lingering close fires, keep-alive and client total timeouts do not)",
         "the handler reads the whole request body (except CONNECT) and writes no body for its own 204/304 status",
         "content-coding equality relies on zlib in the harness (one-shot decode); digests are CRC-32",
@@ -1272,10 +1275,28 @@ def selftest(ctx: Ctx) -> int:
     mutate(lambda e, t: e["quiesce"].__setitem__("cliDone", False), "ClientLeftWaiting")
     mutate(lambda e, t: e["caller"].__setitem__("status", 201), "StatusSame")
     mutate(lambda e, t: e["handler"]["hdrs"].pop(1), "HeadersSame")
-    mutate(lambda e, t: e["reqwire"].__setitem__("after", e["reqwire"]["after"] - 1), "ReqFramingTruthful")
+    mutate(lambda e, t: e["reqwire"].__setitem__("after", e["reqwire"]["after"] + 1), "ReqFramingTruthful")
+    mutate(lambda e, t: e["reqwire"].__setitem__("after", e["reqwire"]["after"] - 1), "UnfinishedBodyDelivered")
+    mutate(lambda e, t: e["quiesce"].__setitem__("respHdrsIntact", False), "HandlerHeadersMutated")
+    mutate(lambda e, t: e["quiesce"].__setitem__("probe", "foreign"), "NextRequestAnsweredWithForeignResponse")
     mutate(lambda e, t: t["events"].pop(2), "")          # dropped event: the monitor must not accept the rest silently
+    # an abandoned exchange (caller cancelled before the response head) and an early answer to a slow body
+    ab = build_trace(world.run_exchange(_simple(world, req={"abort": "beforeHead"}, resp={"delay": "head"}), (Whole(), Whole())))
+    cut = build_trace(world.run_exchange(_simple(world, req={"body": "slowSized", "n": 100}, resp={"early": True}),
+                                         (Whole(), Whole())))
+
+    def mutate2(base: dict, fn: Any, expect: str) -> None:
+        t = copy.deepcopy(base)
+        fn({e["ev"]: e for e in t["events"]}, t)
+        muts.append((t, expect))
+    mutate2(ab, lambda e, t: e["quiesce"].__setitem__("cliClosedOwn", False), "CancelledExchangeConnectionReused")
+    mutate2(cut, lambda e, t: e["quiesce"].__setitem__("cliClosedOwn", False), "UnfinishedBodyConnectionReused")
+    mutate2(cut, lambda e, t: e["quiesce"].__setitem__("srvClosedOwn", False), "UnfinishedBodyServerKeepsConnection")
     vs, _ = validate_batch("WireDecisionTrace", write_cfg("WireDecisionTrace", coded, [], spec="TSpec", post=True),
-                           [good] + [m[0] for m in muts])
+                           [good, ab, cut] + [m[0] for m in muts])
+    print("aborted / cut-body traces:", vs[1].ok, vs[1].clause, vs[2].ok, vs[2].clause)
+    ok &= vs[1].ok and vs[2].ok
+    vs = [vs[0]] + vs[3:]
     print("good trace:", vs[0].ok, vs[0].clause, vs[0].info)
     ok &= vs[0].ok
     for (t, expect), v in zip(muts, vs[1:]):
